@@ -615,6 +615,13 @@ class SecopClient(ProxyClient):
                 event.set()
         except queue.Empty:
             pass
+        try:  # requests queued while the connection was being closed
+            while True:
+                entry = self.txq.get(block=False)
+                if entry:
+                    entry[1].set()
+        except queue.Empty:
+            pass
 
     def _init_descriptive_data(self, data):
         """rebuild descriptive data"""
